@@ -21,7 +21,11 @@ def plan(tier, seed):
         gs.append(Group('%s[%d]' % (w, nf), G.g_prep, (w, nf), functions=[(LL, w)]))
     for w in ('prep_filt_afb2d_nonsep', 'prep_filt_sfb2d_nonsep'):
         gs.append(Group('%s[4]' % w, G.g_prep_nonsep, (w, 4), functions=[(LL, w)]))
-    gs.append(Group('SWTForward', G.g_swt_module, (2, None, 'wavelet'), functions=[('dwt.transform2d', 'SWTForward.forward')]))
+    gs.append(Group('SWTForward', G.g_swt_module, (2, None, 'wavelet'), functions=[('dwt.transform2d', 'SWTForward.forward')], replay=rp('precision', kind='swt')))
+    for d in (2, 3):
+        for dl in (1, 2):
+            gs.append(Group('afb1d_atrous[dim=%d,dilation=%d]' % (d, dl), G.g_atrous1d, (d, dl), functions=[(LL, 'afb1d_atrous')], replay=rp('precision', kind='swt')))
+    gs.append(Group('afb2d_atrous[dilation=2]', G.g_atrous2d, (2,), functions=[(LL, 'afb2d_atrous')], replay=rp('precision', kind='swt')))
     gs += fwd_lowlevel(tier) + [g for g in inv_lowlevel(tier) if 'ifilt' in g.gid or g.gid == 'c2q']
     for tr in (False, True):
         gs.append(Group('prep_filt[column,transpose=%s]' % tr, D.g_dt_prep, (tr, 'column'), functions=[(LLd, 'prep_filt')]))
